@@ -580,11 +580,14 @@ package redis
 //@   loop 1 invariant @every-listed-slot-now-points-to-the-freshly-parsed-node forall j int :: 0 <= j && j <= rangeindex && 0 <= inst.Slots[j] && inst.Slots[j] < 16384 ==> u.slots[inst.Slots[j]] == inst
 
 //@ func parseClusterNodes
-//@   prop C11 C14
+//@   prop C11 C14 C04 C07
 //@   flag bound-alloc
 //@   ensures @instances-non-nil result1 == nil ==> result0 != nil && forall k string :: has(result0, k) ==> result0[k] != nil
 //@   loop 0 invariant insts != nil && forall k string :: has(insts, k) ==> insts[k] != nil
 //@   loop 1 invariant insts != nil && forall k string :: has(insts, k) ==> insts[k] != nil
+//@   ensures @only-a-refusable-line-makes-the-reply-invalid result1 != nil ==> exists l string :: refusable(l)
+//@   witness @only-a-refusable-line-makes-the-reply-invalid l = line
+//@   assume @after:parseClusterNodesSlot (lastresult1 != nil) == badsegs(line)
 
 //@ func parseClusterNodesSlot
 //@   prop C11
